@@ -58,20 +58,20 @@ def runC07f (line : String) : String :=
     | _, _, _ => "bad-op"
   | _ => "bad-op"
 
-/-- stream `c11_realfs` : (rfs PATHKIND MAX REUSE SIZE N RESTARTS) — a real `emit_file::FileSet` on the real
+/-- stream `c11_realfs` : (rfs PATHKIND MAX REUSE SIZE N RESTARTS PLANT) — a real `emit_file::FileSet` on the real
     filesystem in a fresh working directory, for every spelling of the file-set path. Judged by the
     implementation-side oracle alone; the model contributes the verdict the C11 theorems give for every history of
     a fault-free filesystem: at most MAX members after every batch (`retention_partial`), only own names
     (`name_shape`), the newest file holds the last event, every flush of a healthy worker succeeds. -/
 def runRfs (line : String) : String :=
   match Sexp.parse line with
-  | some (.list [.atom "rfs", .atom kind, mx, reuse, size, n, restarts]) =>
-    match mx.nat?, reuse.bool?, size.nat?, n.nat?, restarts.nat? with
-    | some mx, some _, some size, some n, some restarts =>
+  | some (.list [.atom "rfs", .atom kind, mx, reuse, size, n, restarts, plant]) =>
+    match mx.nat?, reuse.bool?, size.nat?, n.nat?, restarts.nat?, plant.bool? with
+    | some mx, some _, some size, some n, some restarts, some plant =>
       if !(["nodir", "dot", "rel", "nested", "abs", "noext", "dotted"].contains kind) || mx == 0 || mx > 8 || n == 0 || n > 40
         || restarts > 3 then "bad-op"
-      else s!"ok\tkind={kind},roll={if size == 0 then "no" else "yes"}"
-    | _, _, _, _, _ => "bad-op"
+      else s!"ok\tkind={kind},roll={if size == 0 then "no" else "yes"},plant={plant}"
+    | _, _, _, _, _, _ => "bad-op"
   | _ => "bad-op"
 
 def streams : List (String × (String → String)) :=
